@@ -309,14 +309,16 @@ Fixpoint names_nodup (l : list name) : bool :=
   match l with [] => true | x :: r => negb (mem x r) && names_nodup r end.
 
 (* specified attributes of a start tag, then the defaults of the element type
-   that were not specified (storeAtts) *)
-Fixpoint eval_attrs (fuel : nat) (d : dtd) (attrs : list (name * list atok))
+   that were not specified (storeAtts).  [open]: the entities whose replacement
+   text is being read as content stay open while the tag's attribute values
+   are evaluated (entity->open is a flag on the entity). *)
+Fixpoint eval_attrs (fuel : nat) (d : dtd) (open : list name) (attrs : list (name * list atok))
   : outcome (list (name * str)) :=
   match attrs with
   | [] => Ok []
   | (a, v) :: r =>
-    obind (attval fuel d (check_content d) [] (map tok_of_atok v)) (fun s =>
-    obind (eval_attrs fuel d r) (fun t => Ok ((a, s) :: t)))
+    obind (attval fuel d (check_content d) open (map tok_of_atok v)) (fun s =>
+    obind (eval_attrs fuel d open r) (fun t => Ok ((a, s) :: t)))
   end.
 
 Fixpoint defaults_for (el : name) (have : list name) (l : list (name * (name * str)))
@@ -328,10 +330,10 @@ Fixpoint defaults_for (el : name) (have : list name) (l : list (name * (name * s
     else defaults_for el have r
   end.
 
-Definition start_tag (fuel : nat) (d : dtd) (nm : name) (attrs : list (name * list atok))
-  : outcome event :=
+Definition start_tag (fuel : nat) (d : dtd) (open : list name) (nm : name)
+  (attrs : list (name * list atok)) : outcome event :=
   if negb (names_nodup (map fst attrs)) then Err          (* duplicate attribute *)
-  else obind (eval_attrs fuel d attrs) (fun a =>
+  else obind (eval_attrs fuel d open attrs) (fun a =>
          Ok (EStart nm (a ++ defaults_for nm (map fst attrs) (attdefs d)))).
 
 (* [tags]: open element names, innermost first.  [lvl]: startTagLevel of the
@@ -345,7 +347,7 @@ Definition tok_step
   match t with
   | TText s => ret ([EChars s], tags)
   | TOpen nm attrs =>
-    match start_tag fuel_att d nm attrs with
+    match start_tag fuel_att d open nm attrs with
     | Ok e => ret ([e], nm :: tags)
     | Err => fail
     | Fuel => nofuel
